@@ -220,7 +220,7 @@ def run_check(pid, tier, seed, replay=None):
         fragdir = os.path.join(work, "frags")
         os.makedirs(fragdir)
         if not replay:
-            for old in glob.glob(os.path.join(OUT, "replays", pid, tier + "-*")):
+            for old in glob.glob(os.path.join(OUT, "replays", pid, "%s-seed%s-*" % (tier, seed))) + glob.glob(os.path.join(OUT, "replays", pid, tier + "-fuzz*")):
                 os.remove(old)
         procs = []
         for k in range(shards):
